@@ -441,7 +441,7 @@ func TestC08Enum(t *testing.T) {
 				return
 			}
 			for _, c := range []int{0, 1, 2} {
-				for _, end := range []string{"cancel", "close"} {
+				for _, end := range []string{"cancel", "close", "close-cancel"} {
 					sc := &Scenario{Prop: "C08", Stage: "unbound", Mode: end, Caps: []int{c}, Script: append([]Move{}, prefix...)}
 					checkWith(t, t, "C08", "TestC08", sc, ExecUnbound)
 				}
@@ -453,7 +453,7 @@ func TestC08Enum(t *testing.T) {
 		}
 	}
 	rec(nil)
-	vk.Exhaustive(fmt.Sprintf("all %d scripts of exactly %d moves over {send, recv, drain, burst 3, {recv,send} batch} x capacity {0,1,2} x end by cancel / by close of the send side", cnt, L))
+	vk.Exhaustive(fmt.Sprintf("all %d scripts of exactly %d moves over {send, recv, drain, burst 3, {recv,send} batch} x capacity {0,1,2} x end by cancel / by close of the send side / by close followed by cancel", cnt, L))
 }
 
 // TestC12Enum: every script of L moves over two inputs {send 0, send 1, close 0, close 1, recv} x capacities {0,1}^2.
@@ -499,7 +499,13 @@ func TestC07(t *testing.T) {
 
 func checkWith(t *testing.T, ft interface{ Fatalf(string, ...any) }, prop, test string, sc *Scenario, exec func(*testing.T, *Scenario) Result) {
 	vk.Journal(prop, test, sc)
-	r := exec(t, sc)
+	var r Result
+	for a := 0; a < max(sc.Repeat, 1); a++ {
+		r = exec(t, sc)
+		if r.Msg != "" {
+			break
+		}
+	}
 	nt, cl := classify(sc, r)
 	vk.Record(sc, nt, cl...)
 	if r.Msg != "" {
@@ -525,7 +531,7 @@ func TestC09(t *testing.T) {
 		sc := genC09(rt)
 		attempts := 1
 		if len(sc.Script) > 1 && sc.Script[0].K == "burst" && sc.Script[0].M == 16 && sc.NoFinish {
-			attempts = 6 // several calls return at the same instant: which of them overlap is up to the scheduler, sample it
+			attempts = 30 // several calls return at the same instant: which of them overlap is up to the scheduler, sample it
 		}
 		check(t, rt, "C09", "TestC09", sc, attempts)
 	})
@@ -544,6 +550,8 @@ func raceProp(t *testing.T, prop, test string, gen func(*rapid.T) *Scenario) {
 		if rapid.IntRange(0, 3).Draw(rt, "cancel") == 0 {
 			sc.N = rapid.IntRange(1, 12).Draw(rt, "cancelAfter")
 		}
+		// the cancel races the end of the stream (for a fold the only place where a cancel can still matter)
+		sc.CancelAtEnd = sc.N == 0 && len(sc.In[0]) > 0 && rapid.IntRange(0, 3).Draw(rt, "cancelAtEnd") == 0
 		procs := rapid.SampledFrom([]int{1, 2, 4, 16}).Draw(rt, "gomaxprocs")
 		sc.Unit = procs // recorded in the scenario (Unit is otherwise unused by fork scenarios)
 		vk.Journal(prop, test, sc)
@@ -608,7 +616,7 @@ func (cntMonoid) Combine(a, b *cnt) *cnt {
 func TestC10Ref(t *testing.T) {
 	rapid.Check(t, func(rt *rapid.T) {
 		sc := &Scenario{Prop: "C10", Stage: "fork.fold/ref", Par: rapid.IntRange(1, 6).Draw(rt, "par"), Caps: []int{rapid.IntRange(0, 4).Draw(rt, "cap")},
-			In: [][]int{rapid.SliceOfN(rapid.IntRange(0, 5), 0, 16).Draw(rt, "in")}, Monoid: rapid.IntRange(0, 1).Draw(rt, "carrier")}
+			In: [][]int{rapid.SliceOfN(rapid.IntRange(0, 5), 0, 16).Draw(rt, "in")}, Monoid: rapid.IntRange(0, 1).Draw(rt, "carrier"), N: rapid.IntRange(0, 1).Draw(rt, "sharedElements")}
 		msg := ""
 		b := bubble.Run(t, func() { msg = runFoldRef(sc) })
 		if msg == "" {
@@ -652,18 +660,46 @@ func runFoldRef(sc *Scenario) string {
 	for _, x := range xs {
 		want.n, want.sum = want.n+1, want.sum+x
 	}
-	in := make(chan *cnt, sc.Caps0())
-	go func() {
-		for _, x := range xs {
-			in <- &cnt{1, x}
+	// the caller keeps its elements; when sc.N > 0 equal values are one shared object sent several times
+	elems := make([]*cnt, len(xs))
+	byVal := map[int]*cnt{}
+	for i, x := range xs {
+		if sc.N > 0 {
+			if byVal[x] == nil {
+				byVal[x] = &cnt{1, x}
+			}
+			elems[i] = byVal[x]
+		} else {
+			elems[i] = &cnt{1, x}
 		}
-		close(in)
-	}()
-	got, ok := <-fork.Fold[*cnt](ctx, sc.Par, in, cntMonoid{})
-	if !ok || got == nil || *got != want {
-		return fmt.Sprintf("counter monoid (pointer carrier), %d workers over %v: fork.Fold = %+v, expected %+v", sc.Par, xs, got, want)
 	}
-	return ""
+	feed := func() <-chan *cnt {
+		in := make(chan *cnt, sc.Caps0())
+		go func() {
+			for _, e := range elems {
+				in <- e
+			}
+			close(in)
+		}()
+		return in
+	}
+	intact := func(after string) string {
+		for i, e := range elems {
+			if *e != (cnt{1, xs[i]}) {
+				return fmt.Sprintf("counter monoid (pointer carrier, Combine adds into its left operand), %d workers over %v: after %s the caller's element %d reads %+v, it was sent as {1 %d}", sc.Par, xs, after, i, *e, xs[i])
+			}
+		}
+		return ""
+	}
+	seq, ok2 := <-pipe.Fold[*cnt](ctx, feed(), cntMonoid{})
+	if m := intact("pipe.Fold"); m != "" {
+		return m
+	}
+	got, ok := <-fork.Fold[*cnt](ctx, sc.Par, feed(), cntMonoid{})
+	if !ok || !ok2 || got == nil || seq == nil || *got != want || *seq != want {
+		return fmt.Sprintf("counter monoid (pointer carrier), %d workers over %v (shared element objects: %v): fork.Fold = %+v, pipe.Fold = %+v, expected %+v", sc.Par, xs, sc.N > 0, got, seq, want)
+	}
+	return intact("fork.Fold")
 }
 
 func TestC12(t *testing.T) {
